@@ -193,7 +193,10 @@ def history_oracle(scn) -> core.CaseResult:
     G = meta["G"]
     M = G["mask"]
     jm, im = M.shape
-    lo_x, hi_x, lo_y, hi_y = 1.5, im - 2.5, 1.5, jm - 2.5
+    i0, i1, j0, j1 = scn["grid"].get("sub") or [1, im - 1, 1, jm - 1]
+    lo_x, hi_x, lo_y, hi_y = i0 + 0.5, i1 - 1.5, j0 + 0.5, j1 - 1.5
+    if scn["grid"].get("sub"):
+        res.cls("subgrid")
     res.cls("diffusion" if scn["diffusion"] else "no_diffusion")
     res.cls(scn["tracker"]["advection"])
     dead_seen: set = set()
